@@ -45,6 +45,11 @@ RemovedHadNoStorage(S) ==
   (S.rec /\ S.r.amsterdam) => \A a \in Addr :
      LET pre == S.w0[a]  post == Finalise(S).w[a] IN
      (S.w[a].ex /\ post.st # S.w[a].st) => (pre.st = ZeroSt /\ post.st = ZeroSt)
+(* EIP-7523: states under Amsterdam rules hold no empty accounts (the initial worlds of the BAL configurations  *)
+(* have none); then an account can only disappear together with a recorded balance / nonce / code change, and   *)
+(* the list determines the post-state (the harness applies it to the parent state and compares roots)          *)
+NoEmptyAccounts(w) == \A a \in Addr : w[a].ex => ~IsEmpty(w[a])
+NoEmptyBetweenTxs(S) == (S.r.amsterdam /\ ~S.intx) => NoEmptyAccounts(S.w)
 BALInvariants(S) == ChangedImpliesAccessed(S) /\ RemovedHadNoStorage(S)
 
 (* ---------------------------------- block-level list ---------------------------------- *)
